@@ -32,7 +32,7 @@ ThoroughBounds == <<-1, 0, 1, 2, 3, 4, 5, 7>>
 QuickConfigs    == {[alpha |-> {"a", "c"}, n |-> 6], [alpha |-> Bases, n |-> 3], [alpha |-> Sym, n |-> 1]}
 ThoroughConfigs == {[alpha |-> {"a", "c"}, n |-> 7], [alpha |-> Bases, n |-> 4], [alpha |-> Sym, n |-> 2]}
 BandedQuickConfigs    == {[alpha |-> {"a", "c"}, n |-> 5], [alpha |-> {"a", "g", "r"}, n |-> 3]}
-BandedThoroughConfigs == {[alpha |-> {"a", "c"}, n |-> 6], [alpha |-> {"a", "c", "g", "r"}, n |-> 4]}
+BandedThoroughConfigs == {[alpha |-> {"a", "c"}, n |-> 6], [alpha |-> {"a", "c", "g", "r"}, n |-> 3]}
 
 SeqsUpTo(S, n) == UNION {[1..k -> S] : k \in 0..n}
 
